@@ -126,7 +126,7 @@ func c14(ctx *Ctx) {
 			if w := time.Since(now); w > maxWindow {
 				maxWindow = w
 			}
-			obs = append(obs, fmt.Sprintf("(%d, %d)", rel(dl), (5*time.Millisecond + maxWindow).Nanoseconds()))
+			obs = append(obs, fmt.Sprintf("(%d, %d)", rel(dl), (5*time.Millisecond+maxWindow).Nanoseconds()))
 			sample = append(sample, opj{isWrite, dns, rel(now), rel(dl)})
 			// monitor: the property's promise, independently
 			if isWrite {
